@@ -12,7 +12,10 @@
    mpt_node_locate's comparison (charset, length, bytes) is then plain equality,
    modelled as equality of [nat] name codes 0..3.  Values: 0 = no metatype,
    otherwise a harness metatype holding that number (cloned by mpt_node_clone,
-   released by mpt_node_destroy).  malloc failure is not modelled. *)
+   released by mpt_node_destroy; the metatype with number 3 refuses to be cloned).
+   Further name codes: 4 and 6 are long texts, 5 a binary identifier (see
+   [name_alloc]); all that matters of a name is equality.  malloc failure is
+   modelled for the clone functions (an oracle says which allocation fails). *)
 From Coq Require Import List Arith ZArith Bool.
 Import ListNotations.
 Local Open Scope nat_scope.
@@ -271,6 +274,50 @@ Definition node_ins (byname : bool) (h : heap) (parent : nat) (pos : Z) (x : ptr
     end
   end.
 
+(* ------------------------------------------------------------------ node_clone.c / tree_clone.c *)
+(* Failure of a clone.  [k] is the allocation oracle of one call of the library: the
+   k-th malloc (counted from 1) of mpt_node_new / mpt_identifier_copy fails, 0 = none
+   fails (the harness injects exactly that through a malloc seam).  A value with
+   code 3 is a metatype whose clone() answers NULL.  A name with code 4 is a text
+   too long for the identifier space mpt_node_new reserves, so that
+   mpt_identifier_copy has to malloc. *)
+Definition tick (k : nat) : nat * bool :=
+  match k with 0 => (0, false) | 1 => (0, true) | S k' => (k', false) end.
+Definition unclonable (v : nat) : bool := v =? 3.
+Definition name_alloc (nm : nat) : bool := nm =? 4.
+
+Definition node_clone (h : heap) (x : ptr) (k : nat) : R (heap * ptr * nat) :=
+  match x with
+  | None => ROk (h, None, k)                          (* errno = EFAULT *)
+  | Some i =>
+    do n <- get h i;
+    if unclonable (nval n) then ROk (h, None, k)      (* meta->clone() failed *)
+    else
+      let '(k, f) := tick k in
+      if f then ROk (h, None, k)                      (* mpt_node_new failed; the cloned value is released *)
+      else
+        let '(h, c) := alloc h (nname n) (nval n) in
+        if name_alloc (nname n) then
+          let '(k, f) := tick k in
+          if f then do h <- release h c; ROk (h, None, k)   (* mpt_identifier_copy failed: copy destroyed, 0 returned *)
+          else ROk (h, Some c, k)
+        else ROk (h, Some c, k)
+  end.
+
+(* for (c = first; c; c = c->next) c->parent = par *)
+Fixpoint set_parents (fuel : nat) (h : heap) (c : ptr) (par : nat) : R heap :=
+  match c with
+  | None => ROk h
+  | Some i =>
+    match fuel with
+    | 0 => RFuel
+    | S f =>
+      do h <- wr set_par h i (Some par);
+      do nx <- fld nnext h (Some i);
+      set_parents f h nx par
+    end
+  end.
+
 (* ------------------------------------------------------------------ node_unlink.c *)
 Definition node_unlink (h : heap) (curr : ptr) : R (heap * ptr) :=
   match curr with
@@ -345,79 +392,89 @@ Definition node_destroy (h : heap) (x : ptr) : R (heap * ptr) :=
       ROk (h, None)
   end.
 
-(* ------------------------------------------------------------------ node_clone.c / tree_clone.c *)
-Definition node_clone (h : heap) (x : ptr) : R (heap * ptr) :=
-  match x with
-  | None => ROk (h, None)
-  | Some i =>
-    do n <- get h i;
-    let '(h, c) := alloc h (nname n) (nval n) in
-    ROk (h, Some c)
-  end.
 
-(* for (c = first; c; c = c->next) c->parent = par *)
-Fixpoint set_parents (fuel : nat) (h : heap) (c : ptr) (par : nat) : R heap :=
-  match c with
+(* the failure branch of mpt_list_clone:
+   for (cpy = first; cpy; cpy = first) { first = first->next; unlink(cpy); destroy(cpy); } *)
+Fixpoint clone_cleanup (g : nat) (h : heap) (first : ptr) : R heap :=
+  match first with
   | None => ROk h
-  | Some i =>
-    match fuel with
+  | Some c =>
+    match g with
     | 0 => RFuel
-    | S f =>
-      do h <- wr set_par h i (Some par);
-      do nx <- fld nnext h (Some i);
-      set_parents f h nx par
+    | S g' =>
+      do nx <- fld nnext h (Some c);
+      do '(h, _) <- node_unlink h (Some c);
+      do '(h, _) <- node_destroy h (Some c);
+      clone_cleanup g' h nx
     end
   end.
 
 (* the loop of mpt_list_clone; [first]/[last] are the locals of the C function,
-   [rec] is the recursive call for the children *)
-Fixpoint clone_loop (rec : heap -> ptr -> R (heap * ptr)) (g : nat) (h : heap) (src first last : ptr)
-  {struct g} : R (heap * ptr) :=
+   [rec] is the recursive call for the children (clone_children) *)
+Fixpoint clone_loop (rec : heap -> ptr -> nat -> R (heap * ptr * nat)) (g : nat) (h : heap) (src first last : ptr) (k : nat)
+  {struct g} : R (heap * ptr * nat) :=
   match src with
-  | None => ROk (h, first)
+  | None => ROk (h, first, k)
   | Some s =>
     match g with
     | 0 => RFuel
     | S g' =>
-      do '(h, cpy) <- node_clone h (Some s);
-      do '(h, first, last) <-
-         match last with
-         | None => ROk (h, cpy, cpy)
-         | Some _ => do '(h, l) <- gnode_after h last cpy; ROk (h, first, l)
-         end;
-      do sk <- fld nkid h (Some s);
-      do h <- match sk, cpy with
-              | Some _, Some c =>
-                do '(h, ck) <- rec h sk;
-                do h <- wr set_kid h c ck;
-                set_parents (fuel_of h) h ck c
-              | _, _ => ROk h
-              end;
-      do nx <- fld nnext h (Some s);
-      clone_loop rec g' h nx first last
+      do '(h, cpy, k) <- node_clone h (Some s) k;
+      match cpy with
+      | None => do h <- clone_cleanup (fuel_of h) h first; ROk (h, None, k)
+      | Some c =>
+        do '(h, first, last) <-
+           match last with
+           | None => ROk (h, cpy, cpy)
+           | Some _ => do '(h, l) <- gnode_after h last cpy; ROk (h, first, l)
+           end;
+        do sk <- fld nkid h (Some s);
+        do '(h, ok, k) <-
+           match sk with
+           | Some _ =>
+             do '(h, ck, k) <- rec h sk k;
+             match ck with
+             | None => ROk (h, false, k)
+             | Some _ =>
+               do h <- wr set_kid h c ck;
+               do h <- set_parents (fuel_of h) h ck c;
+               ROk (h, true, k)
+             end
+           | None => ROk (h, true, k)
+           end;
+        if ok then
+          do nx <- fld nnext h (Some s);
+          clone_loop rec g' h nx first last k
+        else
+          do h <- clone_cleanup (fuel_of h) h first; ROk (h, None, k)
+      end
     end
   end.
 
-Fixpoint list_clone (fuel : nat) (h : heap) (src : ptr) : R (heap * ptr) :=
+Fixpoint list_clone (fuel : nat) (h : heap) (src : ptr) (k : nat) : R (heap * ptr * nat) :=
   match fuel with
   | 0 => RFuel
-  | S f => clone_loop (fun h p => list_clone f h p) fuel h src None None
+  | S f => clone_loop (fun h p k => list_clone f h p k) fuel h src None None k
   end.
 
-Definition tree_clone (h : heap) (src : nat) : R (heap * ptr) :=
-  do '(h, cpy) <- node_clone h (Some src);
-  match cpy with
-  | None => ROk (h, None)
-  | Some c =>
-    do sk <- fld nkid h (Some src);
+Definition tree_clone (h : heap) (src : ptr) (k : nat) : R (heap * ptr * nat) :=
+  do '(h, cpy, k) <- node_clone h src k;
+  match cpy, src with
+  | Some c, Some s =>
+    do sk <- fld nkid h (Some s);
     match sk with
-    | None => ROk (h, cpy)
+    | None => ROk (h, cpy, k)
     | Some _ =>
-      do '(h, ck) <- list_clone (fuel_of h) h sk;
-      do h <- wr set_kid h c ck;
-      do h <- set_parents (fuel_of h) h ck c;
-      ROk (h, cpy)
+      do '(h, ck, k) <- list_clone (fuel_of h) h sk k;
+      match ck with
+      | None => do '(h, _) <- node_destroy h cpy; ROk (h, None, k)
+      | Some _ =>
+        do h <- wr set_kid h c ck;
+        do h <- set_parents (fuel_of h) h ck c;
+        ROk (h, cpy, k)
+      end
     end
+  | _, _ => ROk (h, None, k)
   end.
 
 (* ------------------------------------------------------------------ node_move.c *)
@@ -624,6 +681,195 @@ Fixpoint traverse_list (o : order) (fuel : nat) (h : heap) (flags : nat) (x : pt
     end
   end.
 
+(* ---- the same with what a handler can observe and do: it is told the depth, and it
+   may answer non-zero, which ends the traversal with the node it was called for.
+   Handler state: the calls so far (node, depth) and the number of the call that is
+   answered with non-zero (counted down; 0 = never). *)
+Definition hstate := (list (nat * nat) * nat)%type.
+
+Definition hcall (st : hstate) (x d : nat) : hstate * bool :=
+  let '(acc, k) := st in
+  match k with
+  | 0 => ((acc ++ [(x, d)], 0), false)
+  | 1 => ((acc ++ [(x, d)], 0), true)
+  | S k' => ((acc ++ [(x, d)], k'), false)
+  end.
+
+(* if (MPT_traverse_curr(node, flags)) { if (traverse(node, data, depth)) return node; } *)
+Definition tvisit (n : node) (flags : nat) (x d : nat) (st : hstate) : hstate * ptr :=
+  if trav_curr n flags
+  then let '(st, stop) := hcall st x d in (st, if stop then Some x else None)
+  else (st, None).
+
+(* for (child = c; child; child = child->next) { tmp = process(child); if (tmp) return tmp; } *)
+Fixpoint trav_kidsK (rec : nat -> hstate -> R (hstate * ptr)) (g : nat) (h : heap) (c : ptr) (st : hstate)
+  {struct g} : R (hstate * ptr) :=
+  match c with
+  | None => ROk (st, None)
+  | Some i =>
+    match g with
+    | 0 => RFuel
+    | S g' =>
+      do '(st, r) <- rec i st;
+      match r with
+      | Some _ => ROk (st, r)
+      | None => do nx <- fld nnext h (Some i); trav_kidsK rec g' h nx st
+      end
+    end
+  end.
+
+Fixpoint traverseK (o : order) (fuel : nat) (h : heap) (flags : nat) (x d : nat) (st : hstate) : R (hstate * ptr) :=
+  match fuel with
+  | 0 => RFuel
+  | S f =>
+    do n <- get h x;
+    let kids := trav_kidsK (fun c st => traverseK o f h flags c (S d) st) fuel h in
+    match o with
+    | PostOrder =>
+      do '(st, r) <- kids (nkid n) st;
+      match r with Some _ => ROk (st, r) | None => ROk (tvisit n flags x d st) end
+    | PreOrder =>
+      let '(st, r) := tvisit n flags x d st in
+      match r with Some _ => ROk (st, r) | None => kids (nkid n) st end
+    | InOrder =>
+      match nkid n with
+      | None => ROk (tvisit n flags x d st)
+      | Some c =>
+        do '(st, r) <- traverseK o f h flags c (S d) st;
+        match r with
+        | Some _ => ROk (st, r)
+        | None =>
+          do nx <- fld nnext h (Some c);
+          let '(st, r) := tvisit n flags x d st in
+          match r with Some _ => ROk (st, r) | None => kids nx st end
+        end
+      end
+    end
+  end.
+
+(* mpt_gnode_traverse for the three recursive orders: the list starting at [x], depth 0 *)
+Fixpoint traverse_listK (o : order) (fuel : nat) (h : heap) (flags : nat) (x : ptr) (st : hstate) : R (hstate * ptr) :=
+  match x with
+  | None => ROk (st, None)
+  | Some i =>
+    match fuel with
+    | 0 => RFuel
+    | S f =>
+      do '(st, r) <- traverseK o (fuel_of h) h flags i 0 st;
+      match r with
+      | Some _ => ROk (st, r)
+      | None => do nx <- fld nnext h (Some i); traverse_listK o f h flags nx st
+      end
+    end
+  end.
+
+(* ------------------------------------------------------------------ gnode_level.c *)
+(* the loop of mpt_gnode_samelevel; [rec] is the recursive call with up-1:
+   while ((start = samelevel(start, up-1))) if (start->children) return start->children; return 0; *)
+Fixpoint up_loop (rec : ptr -> R ptr) (g : nat) (h : heap) (cur : ptr) {struct g} : R ptr :=
+  match g with
+  | 0 => RFuel
+  | S g' =>
+    do nx <- rec cur;
+    match nx with
+    | None => ROk None
+    | Some q =>
+      do nq <- get h q;
+      match nkid nq with
+      | Some c => ROk (Some c)
+      | None => up_loop rec g' h (Some q)
+      end
+    end
+  end.
+
+(* mpt_gnode_samelevel(start, up): the next node on the level of [start], looking at
+   most [up] levels up for it; recursion on [up], the while loop on [fuel] *)
+Fixpoint samelevel (up : nat) (fuel : nat) (h : heap) (start : ptr) {struct up} : R ptr :=
+  match start with
+  | None => ROk None                                  (* errno = EFAULT *)
+  | Some s =>
+    do n <- get h s;
+    match up with
+    | 0 => ROk (nnext n)
+    | S up' =>
+      match nnext n with
+      | Some q => ROk (Some q)
+      | None => up_loop (samelevel up' fuel h) fuel h (npar n)     (* start = start->parent; while ... *)
+      end
+    end
+  end.
+
+(* mpt_gnode_sublevel(start, up): the first child of the first node from [start] on
+   (along its level) that has children *)
+Fixpoint sublevel (g : nat) (fuel : nat) (up : nat) (h : heap) (start : ptr) {struct g} : R ptr :=
+  match start with
+  | None => ROk None
+  | Some s =>
+    match g with
+    | 0 => RFuel
+    | S g' =>
+      do n <- get h s;
+      match nkid n with
+      | Some c => ROk (Some c)
+      | None => do nx <- samelevel up fuel h (Some s); sublevel g' fuel up h nx
+      end
+    end
+  end.
+
+(* ------------------------------------------------------------------ gnode_traverse.c: level order *)
+(* the inner loop: all nodes of one level *)
+Fixpoint level_row (g : nat) (fuel : nat) (h : heap) (flags : nat) (curr : ptr) (up d : nat) (st : hstate)
+  {struct g} : R (hstate * ptr) :=
+  match curr with
+  | None => ROk (st, None)
+  | Some c =>
+    match g with
+    | 0 => RFuel
+    | S g' =>
+      do n <- get h c;
+      let '(st, r) := tvisit n flags c d st in
+      match r with
+      | Some _ => ROk (st, r)
+      | None =>
+        do nx <- match nnext n with
+                 | None => samelevel up fuel h (Some c)
+                 | Some q => ROk (Some q)
+                 end;
+        level_row g' fuel h flags nx up d st
+      end
+    end
+  end.
+
+(* the outer loop: while (node) { row; curr = node = sublevel(node, up++); ++depth; } *)
+Fixpoint traverse_level (g : nat) (fuel : nat) (h : heap) (flags : nat) (nd : ptr) (up d : nat) (st : hstate)
+  {struct g} : R (hstate * ptr) :=
+  match nd with
+  | None => ROk (st, None)
+  | Some _ =>
+    match g with
+    | 0 => RFuel
+    | S g' =>
+      do '(st, r) <- level_row fuel fuel h flags nd up d st;
+      match r with
+      | Some _ => ROk (st, r)
+      | None =>
+        do nx <- sublevel fuel fuel up h nd;
+        traverse_level g' fuel h flags nx (S up) (S d) st
+      end
+    end
+  end.
+
+(* mpt_gnode_traverse(x, flags | order, handler): [None] = TraverseLevelOrder *)
+Definition gnode_traverse (h : heap) (o : option order) (flags : nat) (x : ptr) (st : hstate) : R (hstate * ptr) :=
+  match x with
+  | None => ROk (st, None)                            (* errno = EFAULT *)
+  | Some _ =>
+    match o with
+    | Some o => traverse_listK o (fuel_of h) h flags x st
+    | None => traverse_level (fuel_of h) (fuel_of h) h flags x 0 0 st
+    end
+  end.
+
 (* ------------------------------------------------------------------ node_next.c / node_find.c *)
 (* mpt_node_next(curr, ident): first node from curr on (inclusive) with that name.
    Name code 0 stands for ident = NULL, which matches no node (an unnamed node has
@@ -663,6 +909,20 @@ Definition node_find (h : heap) (parent : nat) (nm : nat) (pos : Z) : R ptr :=
    are not linked anywhere, never below themselves; merge lists of different
    trees).  The harness evaluates the same guards on the raw links and skips the
    call when one fails (token X). *)
+(* calls with a NULL node argument (the other arguments are live nodes) *)
+Inductive nullcall :=
+| NAdd (byname : bool) (pos : Z) (x : nat)     (* mpt_[g]node_add(NULL, pos, x) *)
+| NAddN (byname : bool) (f : nat) (pos : Z)    (* mpt_[g]node_add(f, pos, NULL) *)
+| NInsN (byname : bool) (p : nat) (pos : Z)    (* mpt_[g]node_insert(p, pos, NULL) *)
+| NMove (p : nat)                              (* mpt_node_move(&p->children, NULL) *)
+| NPos (pos : Z)                               (* mpt_gnode_pos(NULL, pos) *)
+| NUnlink | NDestroy | NRelink
+| NClone | NLClone | NTClone
+| NTrav (o : option order) (flags : nat)       (* mpt_gnode_traverse(NULL, ..) *)
+| NTravH (x : nat)                             (* mpt_gnode_traverse(x, .., NULL handler) *)
+| NLocate (pos : Z) | NFind | NNext
+| NSame (up : nat) | NSub (up : nat).          (* mpt_gnode_samelevel / mpt_gnode_sublevel (NULL, up) *)
+
 Inductive op :=
 | ONew (nm v : nat)
 | OAfter (p x : ptr)
@@ -672,9 +932,9 @@ Inductive op :=
 | OUnlink (x : nat)
 | OMove (p d : nat)          (* mpt_node_move(&p->children, d) *)
 | OLMove (s d : nat)         (* local = s; mpt_node_move(&local, d) *)
-| OClone (x : nat)
-| OLClone (x : nat)
-| OTClone (x : nat)
+| OClone (x : nat) (k : nat)      (* k: number of the malloc that fails during the call, 0 = none *)
+| OLClone (x : nat) (k : nat)
+| OTClone (x : nat) (k : nat)
 | OClear (x : nat)
 | ODestroy (x : nat)
 | OSwap (a b : nat)
@@ -683,13 +943,17 @@ Inductive op :=
 | OTrav (o : order) (flags : nat) (x : nat)
 | OFind (p : nat) (nm : nat) (pos : Z)
 | ONext (x : nat) (nm : nat)
+| OLocate (x : nat) (pos : Z) (q : option nat)   (* mpt_node_locate with the identifier the query denotes; None: refused *)
+| OWalk (o : option order) (flags : nat) (x : nat) (k : nat)   (* traversal, handler stops at its k-th call *)
+| ONull (c : nullcall)       (* an entry point called with a NULL node *)
 | OEnd.
 
 Inductive out :=
 | OutX                       (* not called: guard failed / dead index *)
 | OutP (p : ptr)             (* pointer result *)
 | OutZ (z : Z)               (* integer result *)
-| OutL (l : list nat).       (* visit sequence *)
+| OutL (l : list nat)        (* visit sequence *)
+| OutW (l : list (nat * nat)) (p : ptr).   (* handler calls (node, depth) and the node returned *)
 
 Definition live (h : heap) (i : nat) : bool :=
   match cells h i with Some _ => true | None => false end.
@@ -748,6 +1012,34 @@ Definition can_link (h : heap) (p x : nat) : R bool :=
 Definition count_unfreed (h : heap) : nat :=
   length (filter (fun i => live h i) (seq 0 (nextid h))).
 
+(* what the entry points do with a NULL node: nothing *)
+Definition mnull (h : heap) (c : nullcall) : R (heap * out) :=
+  match c with
+  | NAdd bn pos x =>
+    if live h x then do '(h, r) <- node_add bn h None pos (Some x); ROk (h, OutP r) else ROk (h, OutX)
+  | NAddN bn f pos =>
+    if live h f then do '(h, r) <- node_add bn h (Some f) pos None; ROk (h, OutP r) else ROk (h, OutX)
+  | NInsN bn p pos =>
+    if live h p then do '(h, r) <- node_ins bn h p pos None; ROk (h, OutZ r) else ROk (h, OutX)
+  | NMove p =>
+    if live h p then do '(h, _, m) <- node_move (fuel_of h) h (FromKids p) None; ROk (h, OutZ (Z.of_nat m))
+    else ROk (h, OutX)
+  | NPos pos => do r <- gnode_pos (fuel_of h) h None pos; ROk (h, OutP r)
+  | NUnlink => do '(h, r) <- node_unlink h None; ROk (h, OutP r)
+  | NDestroy => do '(h, r) <- node_destroy h None; ROk (h, OutP r)
+  | NRelink => ROk (h, OutP None)                     (* errno = EFAULT *)
+  | NClone => do '(h, r, _) <- node_clone h None 0; ROk (h, OutP r)
+  | NLClone => do '(h, r, _) <- list_clone (fuel_of h) h None 0; ROk (h, OutP r)
+  | NTClone => do '(h, r, _) <- tree_clone h None 0; ROk (h, OutP r)
+  | NTrav o fl => do '(st, r) <- gnode_traverse h o fl None ([], 0); ROk (h, OutW (fst st) r)
+  | NTravH x => if live h x then ROk (h, OutW [] None) else ROk (h, OutX)   (* !traverse: errno = EFAULT *)
+  | NLocate pos => do r <- locate (fuel_of h) h None pos 0; ROk (h, OutP r)
+  | NFind => ROk (h, OutP None)                       (* !parent: errno = EINVAL *)
+  | NNext => do r <- node_next (fuel_of h) h None 0; ROk (h, OutP r)
+  | NSame up => do r <- samelevel up (fuel_of h) h None; ROk (h, OutP r)
+  | NSub up => do r <- sublevel (fuel_of h) (fuel_of h) up h None; ROk (h, OutP r)
+  end.
+
 Definition mstep (h : heap) (o : op) : R (heap * out) :=
   match o with
   | ONew nm v => let '(h, i) := alloc h nm v in ROk (h, OutP (Some i))
@@ -784,12 +1076,12 @@ Definition mstep (h : heap) (o : op) : R (heap * out) :=
       if s =? td then ROk (h, OutX)
       else do '(h, _, m) <- node_move (fuel_of h) h (FromLocal (Some s)) (Some d); ROk (h, OutZ (Z.of_nat m))
     else ROk (h, OutX)
-  | OClone x =>
-    if live h x then do '(h, r) <- node_clone h (Some x); ROk (h, OutP r) else ROk (h, OutX)
-  | OLClone x =>
-    if live h x then do '(h, r) <- list_clone (fuel_of h) h (Some x); ROk (h, OutP r) else ROk (h, OutX)
-  | OTClone x =>
-    if live h x then do '(h, r) <- tree_clone h x; ROk (h, OutP r) else ROk (h, OutX)
+  | OClone x k =>
+    if live h x then do '(h, r, _) <- node_clone h (Some x) k; ROk (h, OutP r) else ROk (h, OutX)
+  | OLClone x k =>
+    if live h x then do '(h, r, _) <- list_clone (fuel_of h) h (Some x) k; ROk (h, OutP r) else ROk (h, OutX)
+  | OTClone x k =>
+    if live h x then do '(h, r, _) <- tree_clone h (Some x) k; ROk (h, OutP r) else ROk (h, OutX)
   | OClear x =>
     if live h x then do h <- node_clear (fuel_of h) h x; ROk (h, OutP None) else ROk (h, OutX)
   | ODestroy x =>
@@ -816,6 +1108,17 @@ Definition mstep (h : heap) (o : op) : R (heap * out) :=
     if live h p then do r <- node_find h p nm pos; ROk (h, OutP r) else ROk (h, OutX)
   | ONext x nm =>
     if live h x then do r <- node_next (fuel_of h) h (Some x) nm; ROk (h, OutP r) else ROk (h, OutX)
+  | OLocate x pos q =>
+    if live h x then
+      match q with
+      | None => ROk (h, OutP None)                    (* len && !ident: errno = EFAULT *)
+      | Some nm => do r <- locate (fuel_of h) h (Some x) pos nm; ROk (h, OutP r)
+      end
+    else ROk (h, OutX)
+  | OWalk o fl x k =>
+    if live h x then do '(st, r) <- gnode_traverse h o fl (Some x) ([], k); ROk (h, OutW (fst st) r)
+    else ROk (h, OutX)
+  | ONull c => mnull h c
   | OEnd =>
     (* harness clean-up: every live node without parent is unlinked and destroyed *)
     do h <- fold_left (fun (rh : R heap) (i : nat) =>
